@@ -55,3 +55,46 @@ class SOpaqueStr(Sym):
 
     def __repr__(self):
         return 'SOpaqueStr(%s)' % self.t
+
+
+class SymMatch(object):
+    """truthy result of a symbolic match on an opaque string (groups are not modelled here)"""
+    def __init__(self, pat, s):
+        self.pat, self.s = pat, s
+
+    def group(self, *a):
+        raise OutOfSubset('group() of a match on an opaque string')
+    groupdict = span = group
+
+
+class SymPattern(object):
+    """wrapper of a real compiled pattern; match()/search() on an opaque string forks on regex membership"""
+    def __init__(self, real, name=None):
+        self.real, self.name = real, name or real.pattern[:30]
+        self.pattern = real.pattern
+
+    def _lang(self):
+        from . import regex2smt as R
+        return R.lang(self.real)
+
+    def match(self, s, *a):
+        if isinstance(s, SOpaqueStr):
+            c = ctx()
+            c.assumptions.add('re: P.match(s) succeeds iff s is in the regular language of P\'s parse tree (backtracking is complete)')
+            if c.decide(z3.InRe(s.t, self._lang())):
+                c.notes.append(('match', self.name))
+                return SymMatch(self, s)
+            return None
+        if isinstance(s, Sym):
+            raise OutOfSubset('pattern match on %s' % type(s).__name__)
+        return self.real.match(s, *a)
+
+    def search(self, s, *a):
+        if isinstance(s, Sym):
+            if not self.real.pattern.startswith('^'):
+                raise OutOfSubset('search() with an unanchored pattern')
+            return self.match(s, *a)
+        return self.real.search(s, *a)
+
+    def __getattr__(self, n):
+        return getattr(self.real, n)
